@@ -68,13 +68,17 @@ CHECKS["C03"] = dict(
     level="model_checking", engine="X+S",
     technique="CrossHair symbolic execution (z3) of the real GIRProcessing.flatten + add_main_func on every nested-GIR shape "
               "in a bounded token grammar with a symbolic, unbounded start id; z3 (cvc5 cross-check) on the AST-derived "
-              "encoding of adjust_node_id for the inter-unit id gap",
+              "encoding of adjust_node_id for the inter-unit id gap; corpus leg: the real `main.py lang` on the repository's "
+              "six per-language corpora and on the generated seven-frontend project, tables scanned independently (concrete)",
     text="Half (a) of the property (any nested GIR value -> well-formed rows): for every shape up to the token bound and every "
          "start id (symbolic int) the rows emitted by the real flattener and the real unit-initialiser pass are scanned "
          "independently for unique ids, paired and nested markers, parent = enclosing block, body attributes naming owned "
          "blocks, top-level executable code gathered in order in exactly one %unit_init, no statement lost; the real "
-         "GIRBlockViewer must accept the rows; the inter-unit id gap is decided for all ints from the AST. Half (b) "
-         "(arbitrary source text through tree-sitter never raises) cannot be made symbolic and is not claimed.",
+         "GIRBlockViewer must accept the rows; the inter-unit id gap is decided for all ints from the AST. Corpus leg "
+         "(concrete, labelled so): what the real frontends emit for tests/lang_parser/{python,javascript,java,go,c,php} (137 "
+         "files as six multi-file projects) and for 503 generated files in seven languages satisfies the same clauses "
+         "project-wide (ids unique, file ranges disjoint, blocks owned and named by enclosing statements, executable statements "
+         "inside methods or class initialisers) and the phase exits with 0. Byte-level mutations of source text are not claimed.",
     note="Trusted: CrossHair/z3/cvc5, the shape decoder and the 80-line scan; frontends are assumed to emit values inside the "
          "shape grammar (non-empty bodies, single-key statement dicts).",
     design="4/C03")
